@@ -759,7 +759,10 @@ class Cache:
             if begin:
                 assert self._txn_id == tid
                 self._txn_id = None
-                sql('ROLLBACK')
+                # SQLite has already rolled back by itself after some errors
+                # (disk full): then there is nothing left to roll back.
+                with cl.suppress(sqlite3.OperationalError):
+                    sql('ROLLBACK')
                 for name in created:
                     _disk_remove(name)
             raise
